@@ -128,7 +128,11 @@ func c05Oracle(ec *epCase) *Failure {
 	if f := c05Invariants(outsMap(ec.silent), ptrs, tag); f != nil {
 		return c05Known(ec, f)
 	}
-	// purity: the queried value and the variables equal an independent fresh decode
+	// purity: the queried value and the variables equal an independent fresh decode, and their
+	// fingerprint (which includes the hidden capacity of every slice) is what it was before the calls
+	if ec.fpBefore != 0 && fingerprint(ec.doc, map[string]any(ec.cfg.vars)) != ec.fpBefore {
+		return &Failure{Sig: "C05/input-storage-modified", Expected: "document and variables untouched, including slice storage beyond len", Observed: "fingerprint changed"}
+	}
 	if want := canonTyped(mustDoc(ec.c.Doc, ec.c.Num)); canonTyped(ec.doc) != want {
 		return &Failure{Sig: "C05/document-modified", Expected: want, Observed: canonTyped(ec.doc)}
 	}
